@@ -888,6 +888,25 @@ func checkTypedNil(c *Ctx, rule string, fn *ssa.Function, r *ssa.Return, v ssa.V
 					c.Bad(rule, fname(fn), "interface result", w.instrPos(r), "the "+x.X.Type().String()+" returned as "+x.Type().String()+" can be nil ("+lf.at+"): the interface value is then non-nil, the caller's nil test passes and the first method call dereferences a nil pointer")
 					return
 				}
+				// the result of a module helper that can itself return nil (a lookup helper's
+				// "not found"), unless this leaf is reached under a test result != nil
+				if hc, hi := callOf(stripIface(lf.val)); hc != nil && hc.Call.StaticCallee() != nil && w.IsMod[hc.Call.StaticCallee()] {
+					if hi < 0 {
+						hi = 0
+					}
+					if w.helperCanReturnNil(hc.Call.StaticCallee(), hi, 0) {
+						guarded := false
+						for _, f := range lf.facts {
+							if fv, isNil, ok := nilFact(f); ok && !isNil && (fv == lf.val || w.sameKey(fv, lf.val)) {
+								guarded = true
+							}
+						}
+						if !guarded {
+							c.Bad(rule, fname(fn), "interface result", w.instrPos(r), "the "+x.X.Type().String()+" returned as "+x.Type().String()+" is the result of "+fname(hc.Call.StaticCallee())+", which returns nil when it finds nothing, and is not tested before it is wrapped ("+lf.at+"): the interface value is then non-nil, the caller's nil test passes and the first method call dereferences a nil pointer")
+							return
+						}
+					}
+				}
 			}
 			c.OK(rule, fname(fn), "interface result", w.instrPos(r), "the pointer wrapped in the interface is non-nil on every path")
 		}
@@ -1063,4 +1082,44 @@ func ruleNoSendOnClosable(c *Ctx, rule string) {
 	if n == 0 {
 		c.OK(rule, "-", "scan", "-", fmt.Sprintf("%d closable channel fields, none of them is sent on", len(fields)))
 	}
+}
+
+// helperCanReturnNil: some return of module function h yields the nil constant as result idx
+// (through phis and, one level, through helpers of its own).
+func (w *World) helperCanReturnNil(h *ssa.Function, idx, depth int) bool {
+	if h == nil || len(h.Blocks) == 0 || depth > 2 {
+		return false
+	}
+	for _, r := range returnsOf(h) {
+		if idx >= len(r.Results) {
+			continue
+		}
+		// (nil, err) with err certainly non-nil: the caller is told not to use the value
+		// (only a nil value returned together with a nil error counts — named results read
+		// back after deferred calls hide what is known about the error on the path)
+		if n := len(r.Results); n > 1 && idx != n-1 && r.Results[n-1].Type().String() == "error" && !isNilConst(stripIface(w.resolveLoad(r.Results[n-1]))) {
+			continue
+		}
+		for _, lf := range w.guardedLeaves(r.Results[idx], r) {
+			v := stripIface(lf.val)
+			if isNilConst(v) {
+				return true
+			}
+			if c2, i2 := callOf(v); c2 != nil && c2.Call.StaticCallee() != nil && w.IsMod[c2.Call.StaticCallee()] && c2.Call.StaticCallee() != h {
+				if i2 < 0 {
+					i2 = 0
+				}
+				guarded := false
+				for _, f := range lf.facts {
+					if fv, isNil, ok := nilFact(f); ok && !isNil && (fv == v || w.sameKey(fv, v)) {
+						guarded = true
+					}
+				}
+				if !guarded && w.helperCanReturnNil(c2.Call.StaticCallee(), i2, depth+1) {
+					return true
+				}
+			}
+		}
+	}
+	return false
 }
